@@ -29,7 +29,7 @@ def check_C03(tier_arg=None):
     t0 = time.time()
     seeds = sorted({0, 1, seed % (2 ** 32)}) if tier == 'quick' else list(range(8))
     res = GenResult()
-    run_generated(CC.total_configs(tier, seed) + CC.random_term_configs(tier, seed), 'harness.judge_compose.judge', {'prop': 'C03', 'facets': FACETS},
+    run_generated(CC.total_configs(tier, seed) + CC.random_term_configs(tier, seed) + CC.test_suite_term_configs(), 'harness.judge_compose.judge', {'prop': 'C03', 'facets': FACETS},
                   seeds=seeds, mode='rr', result=res)
     n_builder = res.agg.stats.get('cases', 0)
     run_generated(class_configs(tier, seed), 'harness.judge_class.judge', {'prop': 'C03', 'facets': FACETS},
